@@ -39,7 +39,8 @@ def cases(draw):
     c = {"kind": kind, "values": draw(gen.values_spec), "fmt": draw(st.sampled_from([1, 5])),
          "reader": draw(st.sampled_from(["segyio", "reduced"])), "pert": draw(st.sampled_from(["first", "last", "interior", "lastsample", "edge"])),
          "u": [draw(st.floats(0, 1, exclude_max=True)) for _ in range(3)], "reuse": draw(st.sampled_from([False, False, True])),
-         "mode": draw(st.sampled_from(["strip", "heuristic", "thorough", "exhaustive"]))}
+         "mode": draw(st.sampled_from(["strip", "heuristic", "thorough", "exhaustive"])),
+         "mem": draw(st.sampled_from(gen.MEM_LAYOUTS))}
     if kind == "2d":
         s1 = draw(st.sampled_from([s for s in gen.SETTINGS_2D if s[0] >= 1]))
         s2 = draw(st.sampled_from([s for s in gen.SETTINGS_2D if s[0] >= 1]))
@@ -60,7 +61,8 @@ def cases(draw):
 def convert(case, data, out, setting, d, tag, earlier=()):
     rate, bs = setting[0], tuple(setting[1])
     if case["kind"] == "numpy":
-        conv.numpy_convert(data, out, rate, bs, earlier=earlier)
+        # (the hash is of the samples in trace order, whatever the memory layout of the array handed over)
+        conv.numpy_convert(gen.as_layout(data, case.get("mem")), out, rate, bs, earlier=earlier)
         return data
     path = os.path.join(d, f"in{tag}.sgy")
     if case["kind"] == "2d":
